@@ -14,19 +14,20 @@ const calls = [];
 const allocs = [];
 const allocLog = [];
 let nextAlloc = 1024;
-const wasm = new Proxy({ memory: { buffer: MEM } }, {
+const wasm = new Proxy({ memory: { buffer: MEM }, __hook: null }, {
+  set(t, name, v) { t[name] = v; return true; },
   get(t, name) {
     if (name in t) return t[name];
     if (name === "diplomat_alloc") return (size, align) => { allocs.push([size, align]); let p = nextAlloc; nextAlloc += 256; if (nextAlloc > 3800) nextAlloc = 1024; allocLog.push([size, align, p]); return p; };
     if (name === "diplomat_free") return () => {};
     if (name === "then") return undefined;
-    return (...args) => { calls.push({ name: String(name), args: args.map(a => (typeof a === "bigint" ? "n" + a.toString() : a)) }); return 0; };
+    return (...args) => { if (t.__hook) t.__hook(String(name)); calls.push({ name: String(name), args: args.map(a => (typeof a === "bigint" ? "n" + a.toString() : a)) }); return 0; };
   }
 });
 globalThis.__verif_wasm = wasm;
 const rt = await import(process.cwd() + "/diplomat-runtime.mjs");
 const mods = {};
-for (const n of Object.keys(spec.structs).concat(Object.keys(spec.enums)).concat([spec.opaque])) {
+for (const n of Object.keys(spec.structs).concat(Object.keys(spec.slice_structs || {})).concat(Object.keys(spec.enums)).concat([spec.opaque])) {
   mods[n] = (await import(process.cwd() + "/" + n + ".mjs"))[n];
 }
 function mkOpaque(ty, ptr) { return new mods[ty](rt.internalConstructor, ptr, [1]); }
@@ -241,6 +242,50 @@ for (const sname of Object.keys(spec.structs)) {
     }
   } catch (e) { out.errors.push(sname + " args: " + e); }
   out.structs[sname] = res;
+}
+// ---- flat structs with slice / string fields ---------------------------------------------------------
+// (values and the memory image to read back from are supplied by the caller; nothing here knows the layout)
+out.slice_structs = {};
+for (const [sname, d] of Object.entries(spec.slice_structs || {})) {
+  const S = mods[sname];
+  const res = { has_method: !!d.method };
+  const dec = (v) => (typeof v === "string" && v[0] === "n") ? BigInt(v.slice(1)) : (v && typeof v === "object" && "str" in v) ? v.str : (v && typeof v === "object" && "arr" in v) ? v.arr.map(dec) : v;
+  const mk = () => { const o = {}; for (const f of d.fields) o[f.name] = dec(f.value); return new S(o); };
+  const showv = (v) => Array.isArray(v) ? v.map(showv) : (v && typeof v === "object" && typeof v.length === "number" && typeof v !== "string") ? Array.from(v).map(showv) : show(v);
+  const snapshot = () => { const images = {}; for (const [sz, al, p] of allocLog) images[p] = { size: sz, align: al, bytes: Array.from(new Uint8Array(MEM, p, Math.min(sz, 200))) }; return images; };
+  try {
+    allocs.length = 0; allocLog.length = 0; nextAlloc = 1024;
+    new Uint8Array(MEM).fill(0xAA, 1024, 4096);
+    const buf = new ArrayBuffer(160); new Uint8Array(buf).fill(0xAA);
+    mk()._writeToArrayBuffer(buf, 16, new rt.CleanupArena(), { aAppendArray: [[]] });
+    res.write = { img: Array.from(new Uint8Array(buf)), images: snapshot() };
+  } catch (e) { out.errors.push(sname + " slice write: " + e); }
+  try {
+    const mem = new Uint8Array(MEM);
+    mem.fill(0, 496, 1024);
+    mem.set(d.read.struct_bytes, 512);
+    for (const [addr, bytes] of d.read.data) mem.set(bytes, addr);
+    const o = S._fromFFI(rt.internalConstructor, 512, [1], [1], [1]);
+    res.read = {};
+    for (const f of d.fields) res.read[f.name] = showv(o[f.name]);
+  } catch (e) { out.errors.push(sname + " slice read: " + e); }
+  try {
+    if (d.method) {
+      const O = mods[spec.opaque];
+      const fn = Object.getOwnPropertyNames(O).find(n => n.toLowerCase().replace(/_/g, "") === d.method.js.toLowerCase().replace(/_/g, ""));
+      calls.length = 0; allocs.length = 0; allocLog.length = 0; nextAlloc = 1024;
+      new Uint8Array(MEM).fill(0xAA, 1024, 4096);
+      // snapshot the buffers at the moment of the call: the wrapper frees / reuses them afterwards
+      let atCall = null;
+      const orig = wasm[d.method.symbol];
+      wasm.__hook = (name) => { if (name === d.method.symbol && atCall === null) atCall = snapshot(); };
+      try { O[fn](mk()); } catch (e) { /* decoding the stub's untouched receive buffer may throw; the call is already recorded */ }
+      wasm.__hook = null;
+      const c = calls.find(c => c.name === d.method.symbol);
+      res.args = c ? c.args : null; res.images = atCall || snapshot(); res.recv = allocs.slice();
+    }
+  } catch (e) { out.errors.push(sname + " slice args: " + e); }
+  out.slice_structs[sname] = res;
 }
 // ---- receive buffers of fallible / optional returns -------------------------------------------------
 out.result_returns = {};
